@@ -299,6 +299,7 @@ def run(chk, repo, tier):
                       witness='a space separated file is read as one column')
     run_more(chk, repo)
     run_r7(chk, repo)
+    run_r9(chk, repo)
     run_r8(chk, repo)
 
 
@@ -471,3 +472,35 @@ def run_r8(chk, repo):
                           'regenerated $DATA differs from model.dataset', line=c.lineno,
                           witness='a computed covariate such as 0.1 + 0.2 or log(DV): write_csv + write_model + read_model gives '
                                   'other bits')
+
+
+def run_r9(chk, repo):
+    """a pattern anchored with ^ that is applied to the whole file text must see every line start"""
+    R9 = chk.rule('R9', 'NMTRANDataIO: comment patterns anchored at line start (^...) are compiled with re.MULTILINE', floor=2)
+    dm = repo.module('pharmpy.model.external.nonmem.dataset')
+    cls = dm.classes.get('NMTRANDataIO')
+    f = cls.methods.get('__init__') if cls else None
+    if f is None:
+        raise AnalysisError('NMTRANDataIO.__init__ not found')
+    n = 0
+    for c in [x for x in calls_in(f.node) if dotted(x.func) == 're.compile' and x.args]:
+        pat = c.args[0]
+        first = pat
+        while isinstance(first, ast.BinOp) and isinstance(first.op, ast.Add):
+            first = first.left
+        if isinstance(first, ast.JoinedStr) and first.values:
+            first = first.values[0]
+        if not (isinstance(first, ast.Constant) and isinstance(first.value, str) and first.value.startswith('^')):
+            continue
+        n += 1
+        flags = ' '.join(unparse(a) for a in c.args[1:]) + ' ' + ' '.join(unparse(k.value) for k in c.keywords if k.arg == 'flags')
+        inline = '(?m' in first.value
+        ok = 'MULTILINE' in flags or 're.M' in flags.split() or inline
+        chk.instance(R9, f'NMTRANDataIO: {unparse(c)[:70]}: line-anchored, MULTILINE {ok}')
+        if not ok:
+            chk.violation(R9, dm.rel, f.qualname, unparse(c)[:100],
+                          'without MULTILINE the ^ matches only at the start of the file: comment lines further down are read '
+                          'as data records', line=c.lineno,
+                          witness='$DATA f IGNORE=C with flagged records in the middle of the file: they are not removed')
+    if n < 2:
+        raise AnalysisError(f'R9: only {n} line-anchored comment patterns found in NMTRANDataIO')
